@@ -35,6 +35,7 @@ type StepCfg struct {
 	Name       string `json:"name"`
 	Stdout     bool   `json:"stdout,omitempty"` // stdout: <file>
 	Stderr     bool   `json:"stderr,omitempty"` // stderr: <file>
+	SameFile   bool   `json:"sameFile,omitempty"` // stdout: and stderr: name the same file
 	Output     bool   `json:"output,omitempty"` // output: OUT_<NAME>
 	Script     bool   `json:"script,omitempty"` // command: sh + script: instead of a plain command
 	RetryLimit int    `json:"retryLimit"`       // -1: no retry policy
@@ -79,6 +80,7 @@ func gen(t *rapid.T) Case {
 		s := StepCfg{Name: string(rune('a' + i))}
 		mask := rapid.IntRange(0, 15).Draw(t, "cfgMask")
 		s.Stdout, s.Stderr, s.Output, s.Script = mask&1 != 0, mask&2 != 0, mask&4 != 0, mask&8 != 0
+		s.SameFile = s.Stdout && s.Stderr && rapid.IntRange(0, 2).Draw(t, "sameFile") == 0
 		s.RetryLimit = rapid.SampledFrom([]int{-1, 0, 1, 1, 2, 2}).Draw(t, "retryLimit")
 		lim := max(s.RetryLimit, 0)
 		s.FailFirst = rapid.IntRange(0, lim+1).Draw(t, "failFirst")
@@ -98,7 +100,12 @@ func gen(t *rapid.T) Case {
 		if s.Chunk == 7 && s.OutN+s.ErrN > 30000 {
 			s.Chunk = 4096
 		}
-		clampCapture(&s)
+		// a capture beyond one environment string is kept only where nothing is
+		// exec'ed afterwards in the run: the step is the last one (single step or
+		// end of a chain) and is executed once
+		if !((n == 1 || (c.Chain && i == n-1)) && s.FailFirst == 0) {
+			clampCapture(&s)
+		}
 		c.Steps = append(c.Steps, s)
 	}
 	return c
@@ -174,6 +181,9 @@ func run(c Case, bound time.Duration) *Result {
 		}
 		if s.Stderr {
 			st.Stderr = filepath.Join(dir, s.Name+".stderr")
+			if s.Stdout && s.SameFile {
+				st.Stderr = st.Stdout
+			}
 		}
 		if s.Output {
 			st.Output = "VERIF_OUT_" + strings.ToUpper(s.Name)
@@ -254,6 +264,8 @@ func run(c Case, bound time.Duration) *Result {
 		}
 		if b, err := os.ReadFile(filepath.Join(dir, d.Step.Name+".stderr")); err == nil {
 			sr.stderrF, sr.hasErr = b, true
+		} else if d.Step.Stderr != "" && d.Step.Stderr == d.Step.Stdout && sr.hasOut {
+			sr.stderrF, sr.hasErr = sr.stdoutF, true
 		}
 		res.Steps[d.Step.Name] = sr
 	}
@@ -279,7 +291,7 @@ func judge(c *Case, r *Result) string {
 		if s.FailFirst > lim {
 			wantAttempts, wantState = lim+1, "failed"
 		}
-		cfg := fmt.Sprintf("{stdout:%v stderr:%v output:%v script:%v retryLimit:%d failFirst:%d outN:%d errN:%d chunk:%d}", s.Stdout, s.Stderr, s.Output, s.Script, s.RetryLimit, s.FailFirst, s.OutN, s.ErrN, s.Chunk)
+		cfg := fmt.Sprintf("{stdout:%v stderr:%v sameFile:%v output:%v script:%v retryLimit:%d failFirst:%d outN:%d errN:%d chunk:%d}", s.Stdout, s.Stderr, s.SameFile, s.Output, s.Script, s.RetryLimit, s.FailFirst, s.OutN, s.ErrN, s.Chunk)
 		if sr.Attempts != wantAttempts {
 			return fmt.Sprintf("step %q %s: child was started %d time(s), expected %d (state %s, err %q)", s.Name, cfg, sr.Attempts, wantAttempts, sr.Status, sr.Err)
 		}
@@ -388,9 +400,9 @@ func TestGrid(t *testing.T) {
 		t.Fatal("VERIF_TOOL_EMIT not set")
 	}
 	shard, nsh := rep.EnvInt("VERIF_SHARD", 0), rep.EnvInt("VERIF_NSHARDS", 1)
-	gridSizes := []int{0, 1, 4095, 4096, 4097, 65536, 1 << 20}
+	gridSizes := []int{0, 1, 4095, 4096, 4097, 65536, 131072, 200000, 1 << 20}
 	if !rep.Thorough() {
-		gridSizes = []int{1, 4097, 65536}
+		gridSizes = []int{1, 4097, 65536, 200000}
 	}
 	i := 0
 	for mask := 0; mask < 16; mask++ {
@@ -408,11 +420,16 @@ func TestGrid(t *testing.T) {
 					if stream != 0 {
 						s.ErrN = sz
 					}
-					if captured(&s) > maxCapture {
-						rep.Excluded("output-variable-beyond-one-environment-string(OS limit)")
+					if captured(&s) > maxCapture && retry > 0 {
+						// a further attempt would be exec'ed with the oversized variable in its environment
+						rep.Excluded("output-variable-beyond-one-environment-string-before-a-retry(OS limit)")
 						continue
 					}
 					check(t, Case{Steps: []StepCfg{s}, PauseUS: 200, Done: (mask + retry) % 3})
+					if s.Stdout && s.Stderr && sz <= 65536 {
+						s.SameFile = true
+						check(t, Case{Steps: []StepCfg{s}, PauseUS: 200, Done: (mask + retry) % 3})
+					}
 				}
 			}
 		}
